@@ -206,9 +206,15 @@ def run(ctx):
             ctx.sample({'sid': s['sid'], 'step': s['step'], 'op': s['op'], 'ret': s['ret'] if len(str(s['ret'])) < 200 else '...', 'overrides': len(s['ov'] or {})})
     ctx.evaluations += total
     # canary: a wrong expectation must be noticed by the comparison
-    cart = Cart(37, 11)
-    cart.do({'n': 'set_cell', 'x': 0, 'y': 32, 'v': 9})
-    ctx.canary(cart.mem()[0x1000] == 9 and cart.mem()[0x2000] == base(0x2000, 37, 11), 'aliased cell lands in gfx memory')
+    if not ctx.violations:
+        # the byte-for-byte comparison must notice a wrong expectation: one flipped override
+        s = json.loads(json.dumps(steps[0]))
+        s['ov'] = dict(s['ov'] or {}, **{'4660': (base(4660, mul, add) + 1) % 256})
+        before = len(ctx.violations)
+        replay_histories(ctx, [s], mul, add)
+        rejected = len(ctx.violations) > before
+        del ctx.violations[before:]
+        ctx.canary(rejected, 'expected memory with one wrong byte')
 
 
 def replay(ctx, path):
